@@ -308,11 +308,16 @@ pub fn freezerun_main(args: &[String]) -> i32 {
     // I/O-error family: a write of this pass fails once (the interposer reads the variable)
     let iofail = std::env::var("VERIF_IOFAIL_SPEC").ok();
     if let Some(spec) = &iofail {
-        unsafe { std::env::set_var("VERIF_IOFAIL", spec) };
+        // "sync@<substring>:<n>" fails the n-th fsync, anything else the n-th write
+        match spec.strip_prefix("sync@") {
+            Some(rest) => unsafe { std::env::set_var("VERIF_IOFAIL_SYNC", rest) },
+            None => unsafe { std::env::set_var("VERIF_IOFAIL", spec) },
+        }
     }
     let r = node.shared.verif_freeze_once();
     if iofail.is_some() {
         unsafe { std::env::set_var("VERIF_IOFAIL", "") };
+        unsafe { std::env::set_var("VERIF_IOFAIL_SYNC", "") };
         // the production freezer thread ends at the first pass that returns an error and keeps
         // ticking otherwise: the next passes of this process
         let mut more = 0;
@@ -836,7 +841,7 @@ fn io_error_family(ctx: &Ctx, cons: &Consensus, u: &Universe, dl: &[(String, Blo
             let twin_same = twin_at(ctx, cons, dl, deliver, &format!("io-same-{deliver}"))?;
             let tb_same = battery(twin_same.shared.store(), u, cons, deliver);
             let tb_full = battery(twin.shared.store(), u, cons, dl.len());
-            for target in ["INDEX", "blk"] {
+            for target in ["INDEX", "blk", "fsync-blk", "fsync-INDEX"] {
                 if let Some((_, t, _)) = &only {
                     if t != target {
                         continue;
@@ -871,7 +876,12 @@ fn io_error_family(ctx: &Ctx, cons: &Consensus, u: &Universe, dl: &[(String, Blo
                         .env("LD_PRELOAD", fsynclog_so()?)
                         .env("FSYNCLOG", &log)
                         .env("VERIF_FREEZER_FILE_SIZE", POWER_LOSS_FILE_SIZE.to_string())
-                        .env("VERIF_IOFAIL_SPEC", format!("ancient/{}:{n}", if target == "INDEX" { "INDEX" } else { "blk" }))
+                        .env("VERIF_IOFAIL_SPEC", match target {
+                            "INDEX" => format!("ancient/INDEX:{n}"),
+                            "blk" => format!("ancient/blk:{n}"),
+                            "fsync-blk" => format!("sync@ancient/blk:{n}"),
+                            _ => format!("sync@ancient/INDEX:{n}"),
+                        })
                         .output()
                         .map_err(|e| e.to_string())?;
                     let so = String::from_utf8_lossy(&out.stdout).to_string();
@@ -882,7 +892,7 @@ fn io_error_family(ctx: &Ctx, cons: &Consensus, u: &Universe, dl: &[(String, Blo
                         let _ = std::fs::remove_dir_all(&dir);
                         continue;
                     }
-                    let fired = std::fs::read_to_string(&log).map(|t| t.lines().any(|l| l.starts_with("iofail "))).unwrap_or(false);
+                    let fired = std::fs::read_to_string(&log).map(|t| t.lines().any(|l| l.starts_with("iofail ") || l.starts_with("syncfail "))).unwrap_or(false);
                     if !fired {
                         // the pass has fewer than n writes to this target
                         let _ = std::fs::remove_dir_all(&dir);
@@ -906,7 +916,10 @@ fn io_error_family(ctx: &Ctx, cons: &Consensus, u: &Universe, dl: &[(String, Blo
                         return Ok(());
                     }
                     let label = json!({"family": "io-error", "deliver": deliver, "target": target, "nth_write": n, "file_size_limit": POWER_LOSS_FILE_SIZE, "what_the_process_did": outcome});
-                    let what = format!("the {n}-th write to the freezer's {} during the freeze pass fails once with ENOSPC ({outcome}), the process lives on and is restarted later", if target == "INDEX" { "index file" } else { "data files" });
+                    let what = match target {
+                        "INDEX" | "blk" => format!("the {n}-th write to the freezer's {} during the freeze pass fails once with ENOSPC ({outcome}), the process lives on and is restarted later", if target == "INDEX" { "index file" } else { "data files" }),
+                        _ => format!("the {n}-th fsync of the freezer's {} during the freeze pass fails once with EIO ({outcome}), the process lives on and is restarted later", if target == "fsync-INDEX" { "index file" } else { "data files" }),
+                    };
                     recover_and_judge(cons, u, dl, &dir, deliver, "io-error", &what, &label, &tb_same, &tb_full, n == 1, report)?;
                     report.count("io_error_images", 1);
                     let _ = std::fs::remove_dir_all(&dir);
